@@ -102,10 +102,12 @@ def _enc_msg(args):
 
 
 def cap_send_msg(target, *args):
+    check_budget(1)
     LOG.append(['M', _enc_msg(args), PORT_OF.get(tuple(target), -1)])
 
 
 def cap_send_bundle(target, time, *elements):
+    check_budget(len(elements))
     msgs = []
     for e in elements:
         if isinstance(e[0], str):
@@ -118,6 +120,34 @@ def cap_send_bundle(target, time, *elements):
 
 itf.send_msg = cap_send_msg
 itf.send_bundle = cap_send_bundle
+
+
+class Budget(BaseException):
+    """the run produced more than any history of the model can (a packet with far too many commands, a history
+    that takes far too long): stop instead of grinding on a broken tree"""
+
+
+MAX_PACKET = 600          # commands in one packet; the longest generated history issues well under 200
+MAX_HISTORY_S = 20.0      # wall seconds for one history (normal: a few milliseconds)
+MAX_TOTAL_S = 420.0       # wall seconds for the whole batch
+MAX_BUDGET_HITS = 3       # after that many histories over budget the rest of the batch is skipped
+import time as _time
+_T0 = [_time.time(), _time.time()]     # [batch start, history start]
+
+
+MAX_HISTORY_CMDS = 2500   # commands reaching the interface during one history
+_CNT = [0]
+
+
+def check_budget(n_cmds=0):
+    now = _time.time()
+    _CNT[0] += n_cmds
+    if _CNT[0] > MAX_HISTORY_CMDS:
+        raise Budget('%d commands reached the OSC interface during one history (cap %d)' % (_CNT[0], MAX_HISTORY_CMDS))
+    if n_cmds > MAX_PACKET:
+        raise Budget('a packet with %d commands reached the OSC interface (cap %d)' % (n_cmds, MAX_PACKET))
+    if now - _T0[1] > MAX_HISTORY_S:
+        raise Budget('the history ran for more than %.0f s' % MAX_HISTORY_S)
 
 
 class Boom(Exception):
@@ -519,10 +549,22 @@ def main_():
     payload = json.load(open(sys.argv[1]))
     out = []
     lats = payload.get('latencies') or [None] * len(payload['histories'])
+    hits = 0
     for ops, lat in zip(payload['histories'], lats):
         LOG.clear()
+        _T0[1] = _time.time()
+        _CNT[0] = 0
+        if hits >= MAX_BUDGET_HITS or _T0[1] - _T0[0] > MAX_TOTAL_S:
+            out.append({'steps': [], 'final': {}, 'skipped': 'budget exhausted earlier in this batch'})
+            continue
         try:
             out.append(run_history(ops, lat))
+        except Budget as e:
+            hits += 1
+            out.append({'steps': [], 'final': {}, 'budget': str(e)})
+            for sv in SERVERS:
+                while type(sv.addr).__name__ == 'BundleNetAddr':
+                    sv._addr = sv._addr._save_addr
         except Exception as e:
             out.append({'steps': [], 'final': {}, 'crash': exc_name(e) + ': ' + str(e) + '\n' + traceback.format_exc()[-1500:]})
             # make sure a half-open bind does not leak into the next history
